@@ -164,6 +164,54 @@ def run(ck: Check) -> int:
                                         ck.report(Failing('capture span out of range', {'pattern': plist[0], 'name': x}, 'valid span', (s0, e0)), None)
             if len(sr.samples) < 3:
                 sr.samples.append({'api': mod.__name__, 'patterns': plist, 'exclude': excl, 'flags': hex(fl), 'regexes': (pos, neg)})
+        # ---- systematic grid: every subset of the list-level flags x list shapes (only exclusions,
+        # mixed, exclude=) x both modules — the two loops (translate / compile_pattern) must route alike
+        import itertools as _it
+        shapes = [(['!*.txt'], None), (['-*.txt'], None), (['*', '!a*'], None), (['!a|!b'], None), (['*.txt'], ['a*']),
+                  (['a*', 'b*'], ['*b']), (['!a*', '!*/'], None), (['**', '!**/'], None), (['*/'], None), (['a|b/'], None)]
+        gnames = ['a', 'b', 'a.txt', 'ab', 'a/', 'a/b/', 'b.txt', '.a', 'sub/', 'x/y']
+        for mod in (F, G):
+            lf = [mod.NEGATE, mod.NEGATEALL, mod.MINUSNEGATE, mod.SPLIT, mod.DOTMATCH]
+            if mod is G:
+                lf += [G.NODIR, G.GLOBSTAR]
+            for r in range(len(lf) + 1):
+                for sub in _it.combinations(lf, r):
+                    fl = mod.FORCEUNIX
+                    for b in sub:
+                        fl |= b
+                    for plist, excl in shapes:
+                        sr.evaluations += 1
+                        try:
+                            pos, neg = mod.translate(plist, flags=fl, exclude=excl)
+                            cp = [re.compile(x) for x in pos]
+                            cn = [re.compile(x) for x in neg]
+                            mt = mod.compile(plist, flags=fl, exclude=excl)
+                        except Exception as e:  # noqa: BLE001
+                            sr.histogram['grid-exc:' + type(e).__name__] = sr.histogram.get('grid-exc:' + type(e).__name__, 0) + 1
+                            continue
+                        for x in gnames:
+                            exp = any(c.fullmatch(x) for c in cp) and not any(c.fullmatch(x) for c in cn)
+                            if bool(mt.match(x)) != exp:
+                                ck.report(Failing(f'{mod.__name__}: match({x!r}) = {bool(mt.match(x))} but the translate() regexes say {exp}',
+                                                  {'api': mod.__name__, 'patterns': plist, 'exclude': excl, 'flags': fl, 'name': x}, exp, bool(mt.match(x))), None)
+                                sr.histogram['grid-mismatch'] = sr.histogram.get('grid-mismatch', 0) + 1
+                                break
+        # ---- capture semantics: a top-level extended group that is not a negation captures the text the
+        # whole group consumed — it always takes part in a successful match (the empty string when it matched empty)
+        for mod in (F, G):
+            for pat, subject in [('a?(b)c', 'ac'), ('a?(b)c', 'abc'), ('*(x)y', 'y'), ('*(x)y', 'xxy'), ('@(a|b)+(c)', 'acc'),
+                                 ('?(a)?(b)', ''), ('?(a)?(b)', 'b'), ('x+(a|b)?(c)', 'xab'), ('?(lib)main.py', 'main.py')]:
+                if not subject:
+                    continue
+                sr.evaluations += 1
+                pos, _neg = mod.translate(pat, flags=mod.EXTMATCH | mod.FORCEUNIX)
+                mm = re.compile(pos[0]).fullmatch(subject)
+                if not mm:
+                    continue
+                gs = mm.groups()
+                if any(g is None for g in gs) or ''.join(gs) not in (subject, ) and not all(g in subject for g in gs):
+                    ck.report(Failing(f'translate({pat!r}): groups {gs!r} on {subject!r}: a group that is part of the match did not capture its text',
+                                      {'api': mod.__name__ + '.translate', 'patterns': [pat], 'flags': mod.EXTMATCH, 'name': subject}, 'every group is a str', gs), None)
         sr.note = ('fnmatch/glob: translate(patterns, flags, exclude) regexes all compile and reproduce compile(...).match on every '
                    'name of the name set (lists of 1-3 patterns, inline !/- negation, exclude=, SPLIT/BRACE/NODIR/NEGATEALL); '
                    'number of capturing groups = number of extended groups')
